@@ -89,6 +89,31 @@ def words(name, comment, seps):
     open(os.path.join(OUT,name+'.ops'),'w').write('\n'.join(lines)+'\n')
 words('34-words-separators', 'trivia1 between the words of EXECUTION CONTEXT: model (matchWords) against the parser, separator by separator\n(space, form feed, NBSP, U+2028, comments and mixtures ok; empty, single slash, a letter in between no)',
     [' ', '\x0c', '//c\n', ' \x0c', '\x0c ', '', '\u00a0', '/', ' x ', '\t\r\n', '//', ' // " (\n\u3000', '\u2028'])
+def jsn(name, comment, text_parts):
+    lines=head(comment,'mode json',None)
+    for p in text_parts:
+        if isinstance(p, tuple): lines.append('rep %d %s'%(p[0], hx(p[1])))
+        else:
+            for i in range(0, len(p), 48): lines.append('b '+hx(p[i:i+48]))
+    open(os.path.join(OUT,name+'.ops'),'w').write('\n'.join(lines)+'\n')
+jsn('50-json-dialect', "parse_json against its Lean model: identifier and string keys, comments, trailing commas, every escape, -0, u64 max", [' { a: 1, "b\\u00e9\\ud83d\\ude00": [1.5, -0, 18446744073709551615, null, true, "\\n\\t\\/\\\\\\"", ], } // c'])
+jsn('51-json-empty-array-with-comma', "quirk of separated_list0 + opt(comma): `[,]` is the empty array", ['[,]'])
+jsn('52-json-double-comma', "`[1,,]` is refused (only one trailing comma is read)", ['[1,,]'])
+jsn('53-json-duplicate-key-escaped', "duplicate keys are compared after unescaping: \\u0061 is a", ['{"\\u0061": 1, a: 2}'])
+jsn('54-json-float-boundary-finite', "largest decimal that still rounds to a finite f64", ['[1.7976931348623158e308, 17976931348623158e292, 1e-400, 0e99999999999999999999]'])
+jsn('55-json-float-boundary-overflow', "first decimal that rounds to infinity: refused", ['1.7976931348623159e308'])
+jsn('56-json-number-forms-refused', "recognize_float accepts these lexemes, serde_json's strict grammar refuses them", ['[+1]'])
+jsn('56b-json-number-trailing-dot', "`1.` is a recognize_float lexeme, not a JSON number", ['1.'])
+jsn('56c-json-number-leading-zero', "`01`", ['01'])
+jsn('56d-json-exponent-without-digits', "`1e` is a hard failure (cut)", ['[1e]'])
+jsn('57-json-integer-out-of-range', "u64::MAX + 1 and i64::MIN - 1 are refused, not degraded to f64", ['[18446744073709551616]'])
+jsn('57b-json-integer-i64-min', "i64::MIN itself is exact", ['-9223372036854775808'])
+jsn('58-json-lone-surrogate', "lone high surrogate, high + non-low, sign in \\u", ['["\\ud83d\\u0041"]'])
+jsn('58b-json-u-plus', "`\\u+041` is not four hex digits", ['"\\u+041"'])
+jsn('59-json-depth-64', "64 levels: accepted, the model needs no more than limit + 2 fuel", [(64,'['),(64,']')])
+jsn('59b-json-depth-65', "65 levels: refused before parsing", [(65,'['),(65,']')])
+jsn('59c-json-control-char-in-string', "a raw tab inside a string is refused, DEL is fine", ['["a\tb"]'])
+jsn('59d-json-literals-case', "TRUE is not a literal", ['[true, TRUE]'])
 raw('40-mutate-3000-clauses', 'MEASURED: validate_plan clones the handle set once per clause: quadratic (1000 clauses 0.17 s, 2000 0.45 s, 4000 2.0 s, 8000 9.6 s for all entry points)',
     ['MUTATE{']+['CREATE CONCEPT ?h%x{}'%i for i in range(3000)]+['}'], 'ok')
 print(len(os.listdir(OUT)))
